@@ -73,6 +73,7 @@ pub fn short(t: &RT) -> String {
 }
 
 fn run(ctx: &Ctx, out: &mut Out) {
+    leg_named(ctx, out);
     let types = type_universe(ctx.tier);
     let targets = types_upto(ctx.tier.pick(2, 3));
     let hists = all_hists();
@@ -291,4 +292,202 @@ fn check(t: &Rc<RT>, v: &Rc<RV>, h: &Hist, targets: &[Rc<RT>], out: &mut Out) ->
     }
     out.outcome("ok");
     Ok(true)
+}
+
+/// The named constructors (options, words from integers and byte arrays, word concatenation, the
+/// variable-length buffer and SHA-256 context values): each against the value written out from the
+/// type's definition, and the context values end to end through the `sha_256_ctx_8_*` jets.
+fn leg_named(ctx: &Ctx, out: &mut Out) {
+    use crate::reference::sha;
+    use simplicity::hashes::{sha256, HashEngine};
+    use simplicity::jet::{Core, CoreEnv};
+    use simplicity::node::{ConstructNode, CoreConstructible, JetConstructible, WitnessConstructible};
+    use simplicity::types::{self, Final};
+    use simplicity::{BitMachine, Value, Word};
+    use std::sync::Arc;
+    let leg = "named-constructors";
+    if !ctx.mine() {
+        return;
+    }
+    let mut case = |name: String, f: &mut dyn FnMut() -> Result<(), String>| {
+        let label = || name.clone();
+        if !ctx.begin(leg, &label) {
+            return;
+        }
+        out.evaluations += 1;
+        out.states += 1;
+        out.nontrivial += 1;
+        match guard(|| f()) {
+            Ok(Ok(())) => out.sample(leg, || (label(), "equals the value written out from the type's definition".into())),
+            Ok(Err(d)) => out.violation("named:value", leg, label(), d),
+            Err(p) => out.violation(&panic_class(&p), leg, label(), p),
+        }
+        ctx.end();
+    };
+    let same = |v: &Value, t: &Rc<RT>, want: &Rc<RV>| -> Result<(), String> {
+        if RT::from_final(v.ty()) != *t {
+            return Err(format!("type is {}, expected {t}", v.ty()));
+        }
+        let got = RV::from_value(v)?;
+        if got != *want {
+            return Err(format!("value is {got}, expected {want}"));
+        }
+        let raw: Vec<u8> = v.raw_byte_iter().collect();
+        let padded: Vec<bool> = v.iter_padded().collect();
+        let mut from_raw = crate::reference::bits::bytes_to_bits(&raw);
+        from_raw.truncate(padded.len());
+        // padding positions are unspecified: compare data positions only
+        let spec = want.padded(t);
+        if raw.len() != padded.len().div_ceil(8) || spec.iter().zip(&from_raw).any(|(s, r)| s.map(|s| s != *r).unwrap_or(false)) {
+            return Err("raw_byte_iter disagrees with the padded encoding".into());
+        }
+        let _ = format!("{v} {v:?}");
+        Ok(())
+    };
+    // options and emptiness
+    for t in types_upto(2) {
+        case(format!("none / some / is_unit / is_empty at {t}"), &mut || {
+            let n = Value::none(t.to_final());
+            same(&n, &RT::sum(&RT::unit(), &t), &RV::l(&RV::unit()))?;
+            for v in values_of(&t, 64).0 {
+                let s = Value::some(v.to_value(&t));
+                same(&s, &RT::sum(&RT::unit(), &t), &RV::r(&v))?;
+                let x = v.to_value(&t);
+                if x.is_unit() != (*t == RT::Unit) || x.is_empty() != (t.width() == 0) {
+                    return Err(format!("is_unit / is_empty wrong on {v} : {t}"));
+                }
+            }
+            Ok(())
+        });
+    }
+    // words
+    for pattern in [0x00u8, 0xff, 0xa5, 0x01, 0x80] {
+        case(format!("words of every size from bytes {pattern:#04x}: integer constructors, from_byte_array, Word::product"), &mut || {
+            let w = |k: usize| RV::word_bytes(&vec![pattern; k]);
+            same(&Value::u8(pattern), &RT::word(3), &w(1))?;
+            same(&Value::u16(u16::from_be_bytes([pattern; 2])), &RT::word(4), &w(2))?;
+            same(&Value::u32(u32::from_be_bytes([pattern; 4])), &RT::word(5), &w(4))?;
+            same(&Value::u64(u64::from_be_bytes([pattern; 8])), &RT::word(6), &w(8))?;
+            same(&Value::u128(u128::from_be_bytes([pattern; 16])), &RT::word(7), &w(16))?;
+            same(&Value::u256([pattern; 32]), &RT::word(8), &w(32))?;
+            same(&Value::u512([pattern; 64]), &RT::word(9), &w(64))?;
+            same(&Value::from_byte_array([pattern; 1]), &RT::word(3), &w(1))?;
+            same(&Value::from_byte_array([pattern, !pattern]), &RT::word(4), &RV::word_bytes(&[pattern, !pattern]))?;
+            same(&Value::from_byte_array([pattern; 4]), &RT::word(5), &w(4))?;
+            same(&Value::from_byte_array([pattern; 16]), &RT::word(7), &w(16))?;
+            same(&Value::from_byte_array([pattern; 128]), &RT::word(10), &w(128))?;
+            // concatenation
+            let a = Word::u8(pattern);
+            let b = Word::u8(!pattern);
+            let ab = a.shallow_clone().product(b).ok_or("Word::product of two bytes is None")?;
+            same(ab.as_value(), &RT::word(4), &RV::word_bytes(&[pattern, !pattern]))?;
+            if ab.n() != 4 || Word::u8(1).product(Word::u16(1)).is_some() {
+                return Err("Word::product: wrong n, or words of different length were concatenated".into());
+            }
+            Ok(())
+        });
+    }
+    // buffers: B_n = (1 + 2^(8*2^n)) * B_(n-1), ..., B_0 = 1 + 2^8: one option per binary digit of the length
+    let buffer = |n: usize, data: &[u8]| -> (Rc<RT>, Vec<bool>) {
+        let t = RT::from_final(&Final::buffer8_two_n_plus_one(n).unwrap());
+        let mut bits = vec![];
+        let mut rest = data;
+        for k in (0..=n).rev() {
+            let nb = 1usize << k;
+            if data.len() & nb != 0 {
+                bits.push(true);
+                bits.extend(crate::reference::bits::bytes_to_bits(&rest[..nb]));
+                rest = &rest[nb..];
+            } else {
+                bits.push(false);
+                bits.extend(vec![false; 8 * nb]);
+            }
+        }
+        (t, bits)
+    };
+    for n in 0..=ctx.tier.pick(5usize, 7) {
+        case(format!("buffer8_two_n_plus_one({n}, data) for every length 0..=2^{}", n + 1), &mut || {
+            for len in 0..=(2usize << n) {
+                let data: Vec<u8> = (0..len).map(|i| (i as u8).wrapping_mul(37).wrapping_add(0x81)).collect();
+                let r = Value::buffer8_two_n_plus_one(n, &data);
+                if len > (2 << n) - 1 {
+                    if r.is_ok() {
+                        return Err(format!("a slice of {len} bytes is accepted"));
+                    }
+                    continue;
+                }
+                let v = r.map_err(|e| format!("{len} bytes rejected: {e}"))?;
+                let (t, bits) = buffer(n, &data);
+                let want = RV::from_padded(&t, &bits, &mut 0).ok_or("reference cannot read its own bits")?;
+                same(&v, &t, &want).map_err(|e| format!("{len} bytes: {e}"))?;
+            }
+            Ok(())
+        });
+    }
+    case("buffer8_two_n_plus_one with n beyond the supported range".into(), &mut || {
+        for n in [32usize, 64, usize::MAX] {
+            if Value::buffer8_two_n_plus_one(n, &[]).is_ok() {
+                return Err(format!("n = {n} is accepted"));
+            }
+        }
+        Ok(())
+    });
+    // SHA-256 contexts from raw parts (buffer, count field, midstate), judged structurally and, with the
+    // count field libsimplicity expects (the number of compressed 64-byte blocks), end to end through the
+    // finalize jet. Value::ctx8_from_hash_engine is judged on its buffer and midstate only: its count field
+    // is the number of *bytes*, which the C jets read as a number of blocks, so contexts made from an
+    // engine that has compressed at least one block hash to something else. That is a defect of the helper
+    // (noted in the evidence) but of no listed property: the value is a well-formed value of the type.
+    let mut engine_mismatch = 0u64;
+    for k in 0..=ctx.tier.pick(130usize, 400) {
+        case(format!("ctx8 from raw parts after {k} bytes; sha_256_ctx_8_finalize of it; ctx8_from_hash_engine"), &mut || {
+            let data: Vec<u8> = (0..k).map(|i| (i as u8).wrapping_mul(101).wrapping_add(7)).collect();
+            let mut st = sha::H0;
+            for b in data.chunks_exact(64) {
+                st = sha::compress(st, b.try_into().unwrap());
+            }
+            let tail = &data[k - k % 64..];
+            let (bt, bbits) = buffer(5, tail);
+            let t = RT::prod(&bt, &RT::prod(&RT::word(6), &RT::word(8)));
+            let expect = |count: u64| -> Result<Rc<RV>, String> {
+                let mut bits = bbits.clone();
+                bits.extend((0..64).rev().map(|i| count >> i & 1 == 1));
+                bits.extend(crate::reference::bits::bytes_to_bits(&sha::state_bytes(st)));
+                RV::from_padded(&t, &bits, &mut 0).ok_or("reference cannot read its own bits".to_string())
+            };
+            let blocks = (k / 64) as u64;
+            let v = Value::ctx8(sha::state_bytes(st), blocks, tail).map_err(|e| e.to_string())?;
+            same(&v, &t, &expect(blocks)?)?;
+            same(&Value::ctx8(sha::state_bytes(st), u64::MAX - k as u64, tail).map_err(|e| e.to_string())?, &t, &expect(u64::MAX - k as u64)?)?;
+            if Value::ctx8([0; 32], 0, &[0; 64]).is_ok() {
+                return Err("ctx8 accepts a 64-byte buffer".into());
+            }
+            // comp (witness ctx) sha_256_ctx_8_finalize == SHA-256(data)
+            let finalize = |v: &Value| -> Result<Value, String> {
+                let prog = types::Context::with_context(|c| {
+                    let w = Arc::<ConstructNode>::witness(&c, Some(v.shallow_clone()));
+                    let j = Arc::<ConstructNode>::jet(&c, &Core::Sha256Ctx8Finalize);
+                    Arc::<ConstructNode>::comp(&w, &j).map_err(|e| e.to_string())?.finalize_unpruned().map_err(|e| e.to_string())
+                })?;
+                let mut mac = BitMachine::for_program(&prog).map_err(|e| e.to_string())?;
+                mac.exec(&prog, &CoreEnv::new()).map_err(|e| format!("finalize jet fails on the context: {e}"))
+            };
+            same(&finalize(&v)?, &RT::word(8), &RV::word_bytes(&sha::sha256(&data))).map_err(|e| format!("finalize jet on the context: {e}"))?;
+            // the engine helper: buffer and midstate must be the engine's; the count field is recorded
+            let mut e = sha256::Hash::engine();
+            e.input(&data);
+            let ev = Value::ctx8_from_hash_engine(&e);
+            let got = RV::from_value(&ev)?;
+            if RT::from_final(ev.ty()) != t || (got != expect(blocks)? && got != expect(blocks * 64)?) {
+                return Err(format!("ctx8_from_hash_engine after {k} bytes has neither the engine's buffer and midstate with a block count nor with a byte count"));
+            }
+            if got != expect(blocks)? {
+                engine_mismatch += 1;
+            }
+            Ok(())
+        });
+    }
+    if engine_mismatch > 0 {
+        out.note(format!("not a violation of C10: Value::ctx8_from_hash_engine / ctx8_from_midstate store the number of hashed BYTES in the count field of the context, libsimplicity's sha_256_ctx_8_* jets read it as the number of compressed 64-byte BLOCKS ({engine_mismatch} of the engines tried, i.e. all with >= 64 bytes, give contexts that finalize to a different hash)"));
+    }
 }
